@@ -489,6 +489,9 @@ func runStrategy(strat varmq.Strategy, kinds []QK, pop []int, late int) (clause,
 	if x.EngineErr != "" {
 		return "engine", x.EngineErr
 	}
+	if x.Livelock != "" {
+		return "C15.starved", "queues with pending jobs are starved: " + x.Livelock
+	}
 	if x.UserBlocked > 0 {
 		return "C15.hang", "the scenario thread blocked"
 	}
@@ -583,31 +586,29 @@ func lifeProps(cfg lifeCfg) []string {
 }
 
 func init() {
-	cfgs := []lifeCfg{{}, {pending: true}, {ctx: true, pending: true}, {ctx: true, expiry: true}, {busy: true}}
+	cfgs := []lifeCfg{{}, {pending: true}, {ctx: true, pending: true}, {ctx: true, expiry: true}, {busy: true}, {expiry: true, pending: true}, {busy: true, expiry: true}}
 	for _, cfg := range cfgs {
 		cfg := cfg
-		Register(&Scenario{
-			Name: "seq-life/" + cfg.String() + "/d3", Props: lifeProps(cfg), Seq: true, Only: "quick",
-			SeqRun: func(r *SeqReport) {
-				r.Exhaustive = true
-				enumLife(r, cfg, 3, "")
-				r.Notes = append(r.Notes, "all lifecycle call sequences up to depth 3 over "+fmt.Sprint(len(lifeOps))+" calls, config "+cfg.String()+", probe job after each sequence")
-			},
-		})
 		for _, first := range lifeOps {
 			first := first
 			if first == "Cancel" && !cfg.ctx {
 				continue
 			}
-			Register(&Scenario{
-				Name: "seq-life/" + cfg.String() + "/d5/" + first, Props: lifeProps(cfg), Seq: true, Only: "thorough",
-				SeqRun: func(r *SeqReport) {
-					r.Exhaustive = true
-					d := 5
-					enumLife(r, cfg, d, first)
-					r.Notes = append(r.Notes, fmt.Sprintf("all lifecycle call sequences of depth <= %d starting with %s, config %s", d, first, cfg))
-				},
-			})
+			for _, d := range []int{4, 6} {
+				d := d
+				only := "quick"
+				if d == 6 {
+					only = "thorough"
+				}
+				Register(&Scenario{
+					Name: fmt.Sprintf("seq-life/%s/d%d/%s", cfg, d, first), Props: lifeProps(cfg), Seq: true, Only: only,
+					SeqRun: func(r *SeqReport) {
+						r.Exhaustive = true
+						enumLife(r, cfg, d, first)
+						r.Notes = append(r.Notes, fmt.Sprintf("all lifecycle call sequences of depth <= %d starting with %s over %d calls, config %s, probe job after each sequence", d, first, len(lifeOps), cfg))
+					},
+				})
+			}
 		}
 	}
 	allQ := []QK{Fifo, Prio, Pers, PersPrio, Dist}
